@@ -12,8 +12,8 @@ import (
 	"fmt"
 
 	"capnproto.org/go/capnp/v3"
-	"capnproto.org/go/capnp/v3/zverif/common"
 	rpccp "capnproto.org/go/capnp/v3/std/capnp/rpc"
+	"capnproto.org/go/capnp/v3/zverif/common"
 )
 
 type hostile struct {
